@@ -367,3 +367,32 @@ def check_casts(ctx, rep):
                 else:
                     rep.bad("R-CAST", "R-CAST:" + key, b.where(bi), "a non-finite number reaches serialize_f64: serde_json writes NaN / INF as null, which reads back as Null (kind and value lost)")
     return n
+
+
+def check_float_roundtrip(ctx, rep):
+    """serde_json parses floats exactly only with its `float_roundtrip` feature; without it about 30% of finite doubles come
+    back one ULP off, so 'no finite number changes magnitude' needs the feature (a build-configuration fact read from the manifest)"""
+    import re as _re
+
+    path = os.path.join(getattr(ctx, "repo_root", "/repo"), "Cargo.toml")
+    txt = open(path).read()
+    feats = None
+    m = _re.search(r'^serde_json\s*=\s*\{([^}]*)\}', txt, _re.M)
+    if m:
+        f = _re.search(r'features\s*=\s*\[([^\]]*)\]', m.group(1))
+        feats = [x.strip().strip('"') for x in f.group(1).split(",")] if f else []
+    else:
+        m2 = _re.search(r'^\[dependencies\.serde_json\]([^\[]*)', txt, _re.M)
+        if m2:
+            f = _re.search(r'features\s*=\s*\[([^\]]*)\]', m2.group(1))
+            feats = [x.strip().strip('"') for x in f.group(1).split(",")] if f else []
+        elif _re.search(r'^serde_json\s*=\s*"', txt, _re.M):
+            feats = []
+    if feats is None:
+        rep.gap("Cargo.toml:serde_json", "Cargo.toml", "dependency declaration not found")
+        return 0
+    if "float_roundtrip" in feats:
+        rep.ok("R-CONFIG", "serde_json:float_roundtrip", "Cargo.toml", "feature enabled: serde_json parses every float to the nearest f64")
+    else:
+        rep.bad("R-CONFIG", "R-CONFIG:serde_json:float_roundtrip", "Cargo.toml", "serde_json is built without `float_roundtrip`: its fast float parser is up to one ULP off, so a finite number written to Hayson does not always read back to the same f64 (e.g. 3e25 -> 3.0000000000000005e25)")
+    return 1
